@@ -134,6 +134,14 @@ func verifOptAttrs(n int, get func(i int) interface{}) []attribute.KeyValue {
 	return out
 }
 
+// a method name: "a" or "b", left to the solver (the hook never branches on it), so
+// that within a history the same method recurs with another outcome
+func verifC43Method(i int) string {
+	m := verifNondetString("method", 1)
+	verifAssume(verifAllInSet(m, "ab"))
+	return m
+}
+
 func verifAttr(kvs []attribute.KeyValue, key string) (string, int) {
 	v, n := "", 0
 	for _, kv := range kvs {
@@ -183,7 +191,7 @@ func verifAttrInt64(k string, v int64) attribute.KeyValue {
 //verif:stub go.opentelemetry.io/otel/attribute.Int64 = verifAttrInt64
 //verif:stub time.Now = verifNow
 //verif:stub time.Since = verifSince
-//verif:bound histories of 1..2 (thorough: 1..3) dispatches through one hook: tracing on/off, metrics on/off, RecordExceptions on/off, the tracer's spans recording or not; per dispatch: method alpha or beta (so the same method recurs with different outcomes), transport metadata absent, without trace headers, with traceparent, or with traceparent+tracestate (values ANY 2-byte / 1-byte strings); the call succeeds, fails with a plain error, or fails with an *RpcError; statistics present or nil and request id present or not (per history); dispatches run one after the other or nested (start, start, end, end). Tracer, span, counter, histogram and propagator are in-memory recorders with the OpenTelemetry interfaces; attribute sets are recorded as given
+//verif:bound histories of 1..2 (thorough: 1..3) dispatches through one hook: tracing on/off, metrics on/off, RecordExceptions on/off, the tracer's spans recording or not; per dispatch: method 'a' or 'b' (symbolic, so the same method recurs with different outcomes), transport metadata absent, without trace headers, with traceparent, or with traceparent+tracestate (values ANY 2-byte / 1-byte strings); the call succeeds, fails with a plain error, or fails with an *RpcError; statistics present or nil and request id present or not (per history); dispatches run one after the other or nested (start, start, end, end). Tracer, span, counter, histogram and propagator are in-memory recorders with the OpenTelemetry interfaces; attribute sets are recorded as given
 func verifH_C43_span_and_metric_per_dispatch() {
 	tracer := &verifTracer{recording: verifNondetBool("spans_recording")}
 	prop := &verifPropagator{}
@@ -214,7 +222,7 @@ func verifH_C43_span_and_metric_per_dispatch() {
 	withRID, withStats := verifNondetBool("request_id"), verifNondetBool("stats")
 	for i := range calls {
 		c := &call{span: -1}
-		c.info = vgirpc.DispatchInfo{Method: []string{"alpha", "beta"}[verifChoice("method", 2)], MethodType: "unary", ServerID: "srv"}
+		c.info = vgirpc.DispatchInfo{Method: verifC43Method(i), MethodType: "unary", ServerID: "srv"}
 		if withRID {
 			c.info.RequestID = "rid"
 		}
